@@ -2051,6 +2051,9 @@ def truncate_json_overflow(data):
     elif isinstance(data, collections.abc.Iterable) and not isinstance(data, str):
         # Handle lists, tuples, arrays, etc., but not strings
         return [truncate_json_overflow(item) for item in data]
+    elif isinstance(data, (np.integer, np.floating)) and isinstance(data.item(), (int, float)):
+        # NumPy scalars: compare as Python numbers (NumPy would cast the limits below to the scalar's own dtype)
+        return truncate_json_overflow(data.item())
     elif isinstance(data, (int, float)) and not (data % 1) and not (1 - 2**53 <= data <= 2**53 - 1):
         return min(max(data, 1 - 2**53), 2**53 - 1)  # Truncate integers to fit in JSON (53 bits max)
     elif isinstance(data, float) and (data < -1.7976e308 or data > 1.7976e308):
